@@ -6,7 +6,7 @@
    Bound: versions are MAJOR.MINOR.PATCH; pre-release / build suffixes are outside the
    model (parse_version answers None for them). *)
 From Coq Require Import String Ascii.
-From LP Require Import Semver Migrate Params MigrateParams Consts SemverProofs MigrateProofs MigrateParamsProofs.
+From LP Require Import Semver Migrate Params MigrateParams Consts SemverProofs SemverInj MigrateProofs MigrateParamsProofs.
 Import ListNotations.
 Local Open Scope N_scope.
 
@@ -96,6 +96,13 @@ Example C20_parse_version_boundaries :
   parse_version "18446744073709551615.0.0" = Some (U64_MAX, 0, 0) /\
   parse_version "18446744073709551616.0.0" = None.
 Proof. exact parse_version_prerelease_rejected. Qed.
+
+(* the spelling of a version is canonical: two strings that parse to the same version are
+   the same string, so equality of stored cw2 version strings is equality of versions
+   (ordering is not: C20_semver_not_string_order) *)
+Theorem C20_parse_version_canonical : forall s t v,
+  parse_version s = Some v -> parse_version t = Some v -> s = t.
+Proof. exact parse_version_inj. Qed.
 
 (* ---- accepted exactly when ... (one theorem per class of migrate function) ---- *)
 (* open-edition minters, token-merge minter, splits, the two Merkle whitelists *)
@@ -387,3 +394,4 @@ Print Assumptions C20_parse_version_shape.
 Print Assumptions C20_parse_version_rejects_other_chars.
 Print Assumptions C20_parse_num_leading_zero.
 Print Assumptions C20_parse_version_boundaries.
+Print Assumptions C20_parse_version_canonical.
